@@ -154,6 +154,37 @@ func engineConc(rep *Report) {
 					shared = proto.Clone(BuildStruct(s.Zero, v))
 					other = BuildStruct(s.Zero, v2)
 				}
+				if round%5 == 4 {
+					// empty-but-allocated containers: a read path that "normalises" them writes to the struct
+					nilToEmpty(reflect.ValueOf(shared), 0)
+				}
+				// view objects obtained once and shared by all readers (not in round 0: the first use of the type stays concurrent)
+				var views []protoreflect.Value
+				var viewFDs []FD
+				if round > 0 {
+					sr := shared.ProtoReflect()
+					for i := 0; i < d.Fields().Len(); i++ {
+						fd := d.Fields().Get(i)
+						if fd.IsList() || fd.IsMap() {
+							views = append(views, sr.Get(fd))
+							viewFDs = append(viewFDs, fd)
+						}
+					}
+				}
+				viewOp := func() string {
+					out := ""
+					for i, vv := range views {
+						out += digestValue(viewFDs[i], vv) + ";"
+						if viewFDs[i].IsMap() {
+							vv.Map().Range(func(k protoreflect.MapKey, _ protoreflect.Value) bool { _ = vv.Map().Has(k); return true })
+							out += fmt.Sprint(vv.Map().Len(), vv.Map().IsValid())
+						} else {
+							out += fmt.Sprint(vv.List().Len(), vv.List().IsValid())
+						}
+					}
+					return out
+				}
+				viewRes := make([]string, G)
 				results := make([][]string, G)
 				panics := make([]string, G)
 				var start, done sync.WaitGroup
@@ -168,7 +199,10 @@ func engineConc(rep *Report) {
 						res := make([]string, len(ops))
 						start.Wait() // barrier: all readers are released together
 						pan, pmsg := safely(func() {
-							for _, oi := range perm {
+							for k, oi := range perm {
+								if k == len(perm)/2 {
+									viewRes[gi] = viewOp()
+								}
 								res[oi] = ops[oi].f(shared, other)
 							}
 						})
@@ -195,6 +229,13 @@ func engineConc(rep *Report) {
 						names = append(names, o.name)
 					}
 					rep.Sample("C11", map[string]interface{}{"type": tn, "goroutines": G, "ops_each_in_seeded_permutation": names, "shared_message_hex": hx(SpecEncode(v))})
+				}
+				seqView := viewOp()
+				for gi := 0; gi < G; gi++ {
+					if panics[gi] == "" && viewRes[gi] != seqView {
+						rep.Violate("C11", "conc/result-differs-from-sequential/shared-views", tn, fmt.Sprintf("goroutine %d reading shared list/map views got %s, sequential reader %s", gi, trunc(viewRes[gi]), trunc(seqView)), rc)
+						break
+					}
 				}
 				for gi := 0; gi < G; gi++ {
 					if panics[gi] != "" {
